@@ -66,7 +66,7 @@ def run(tier: str, seed: int) -> int:
                 tb = df.geometry.array.total_bounds
                 for inparts in ([1, 3] if quick else [1, 2, 3]):
                     # every history mode in turn (a random draw once left a mode out of the quick tier)
-                    MODES = ["plain", "filtered", "sorted", "touched-filtered", "repacked", "repacked-filtered", "indexed", "dataset-bounded"]
+                    MODES = ["plain", "indexed", "filtered", "sorted", "touched-filtered", "repacked", "indexed", "repacked-filtered", "dataset-bounded"]
                     mode_no += 1
                     mode = MODES[mode_no % len(MODES)]
                     if mode == "dataset-bounded" and len(df) < 12:
